@@ -287,4 +287,39 @@ example : configure (fun _ => true) [] [102] = some [102] ∧ configure (fun _ =
 example : isValidPassword (fun _ _ => false) [112] [112] = true ∧ isValidPassword (fun _ _ => false) [36, 112] [36, 112] = false := by
   decide
 
+
+/-! ## round 6: the plaintext comparison is exact on the bytes -/
+
+/-- a plaintext / token configuration accepts exactly the configured byte string: no folding, no characters dropped -/
+theorem plain_password_exact (verify : Str → Str → Bool) (σ pw : Str) (h : σ.head? ≠ some 36) :
+    isValidPassword verify σ pw = true ↔ pw = σ := by
+  unfold isValidPassword
+  simp only [h, if_false, beq_iff_eq]
+  exact ⟨fun e => e.symm, fun e => e.symm⟩
+
+/-- `WebAuth.configure` never leaves an empty plaintext password (an empty option value draws a fresh token) -/
+theorem configure_plain_nonempty (hashOk : Str → Bool) (v fresh σ : Str) (hc : configure hashOk v fresh = some σ)
+    (hf : fresh ≠ []) : σ ≠ [] := by
+  unfold configure at hc
+  by_cases hd : v.head? = some 36
+  · simp only [hd, if_true] at hc
+    by_cases hk : hashOk v = true
+    · simp [hk] at hc; subst hc; intro e; simp [e] at hd
+    · simp [hk] at hc
+  · simp only [hd, if_false] at hc
+    by_cases he : v.isEmpty = true
+    · simp [he] at hc; subst hc; exact hf
+    · simp [he] at hc; subst hc; intro e; simp [e] at he
+
+/-- hence a request without any credential text is refused under every plaintext / token configuration: the empty
+    password never matches -/
+theorem empty_password_refused (verify : Str → Str → Bool) (σ : Str) (h : σ.head? ≠ some 36) (hne : σ ≠ []) :
+    isValidPassword verify σ [] = false := by
+  cases hv : isValidPassword verify σ [] with
+  | false => rfl
+  | true => exact absurd ((plain_password_exact verify σ [] h).mp hv).symm hne
+
+example : isValidPassword (fun _ _ => false) [208, 191] [] = false := by decide      -- "п" (non-ASCII only) vs the empty credential
+example : isValidPassword (fun _ _ => false) [116, 111, 107] [116, 111, 107, 195, 169] = false := by decide   -- tok vs tok+é
+
 end MitmVerif.Props.C46
